@@ -100,7 +100,10 @@ func prop(t *rapid.T) {
 		tb.Opts.CacheCap = rapid.IntRange(0, 3).Draw(t, "cap")
 	}
 	tb.Opts.Via, tb.Opts.Order = model.GenVia(t), model.GenOrder(t)
-	cfg := model.TableCfg{MaxRoutes: ev.Pick(8, 14), Gen: model.GenCfg{MaxSegs: ev.Pick(3, 4), RichLits: true}}
+	// "a request is dispatched to a route only if that route allows the method" also holds for the '/*' routes
+	// of the fallback option
+	tb.Opts.Fallback = rapid.IntRange(0, 3).Draw(t, "fallback") == 0
+	cfg := model.TableCfg{MaxRoutes: ev.Pick(8, 14), Gen: model.GenCfg{MaxSegs: ev.Pick(3, 4), RichLits: true}, Fallback: tb.Opts.Fallback}
 	tb.Routes = model.GenRoutes(t, cfg, tb.Opts.Strict)
 	if len(tb.Routes) == 0 {
 		t.Skip("empty table")
